@@ -151,7 +151,7 @@ func runOpsCases(out string, r *rng.R, thorough bool, m *meta) {
 	}
 	per := 2
 	if thorough {
-		per = 8
+		per = 6
 	}
 	var coq []string
 	var js []any
@@ -175,5 +175,5 @@ func runOpsCases(out string, r *rng.R, thorough bool, m *meta) {
 		}
 	}
 	m.OpsCases = len(coq)
-	m.Kinds = append(m.Kinds, writeKind(out, "ocases", "ocase", "ocase_model_ok", "ocase_verdict", coq, js, 200, ""))
+	m.Kinds = append(m.Kinds, writeKind(out, "ocases", "ocase", "ocase_model_ok", "ocase_verdict", coq, js, 60, ""))
 }
